@@ -1,4 +1,5 @@
 import ScionVerif.Lemmas.Comb
+import ScionVerif.Lemmas.CombOrder
 /-!
 # C19 — path combination tolerates arbitrary segment sets from the control plane
 
@@ -160,9 +161,8 @@ example : (combine 1 3 [] [upSeg]).toOption.map (List.map fun p => [p.src, p.dst
 `badCores`, `badNonCores` (not already present) to a segment set.  If no complete candidate solution of
 the enlarged search uses an edge of an added segment — they "contribute no edge chain" from `src` to
 `dst` — then the result (paths, their order, their bytes and metadata) is exactly the result without
-them.  Weaker than the property clause: a segment that *does* form candidates whose path is then
-dropped (more than 63 hop fields, no interface id) or loop-filtered is outside `hunused`; for those the
-clause is checked on the implementation by the oracle `C19:garbage-ignored` of hx_comb. -/
+them.  Special case of `garbage_independent_strong` below, which also covers segments that *do* form
+candidates whose path is then dropped (more than 63 hop fields, no interface id) or loop-filtered. -/
 theorem garbage_independent (src dst : Nat) (cores nonCores badCores badNonCores : List Seg)
     (hbc : ∀ b ∈ badCores, (⟨true, b⟩ : InSeg) ∉ inputSegs cores nonCores)
     (hbn : ∀ b ∈ badNonCores, (⟨false, b⟩ : InSeg) ∉ inputSegs cores nonCores)
@@ -200,6 +200,82 @@ theorem garbage_independent (src dst : Nat) (cores nonCores badCores badNonCores
     rw [hs, hps] at hps'
     injection hps' with hpe
     rw [hc', hc, hpe]
+
+/-- the given segments are what is left of the enlarged set when the added ones are filtered out -/
+theorem inputSegs_garbage_filter (cores nonCores badCores badNonCores : List Seg)
+    (hbc : ∀ b ∈ badCores, (⟨true, b⟩ : InSeg) ∉ inputSegs cores nonCores)
+    (hbn : ∀ b ∈ badNonCores, (⟨false, b⟩ : InSeg) ∉ inputSegs cores nonCores) :
+    (inputSegs (cores ++ badCores) (nonCores ++ badNonCores)).filter
+        (fun s => decide (s ∈ inputSegs cores nonCores)) = inputSegs cores nonCores := by
+  have e1 : inputSegs (cores ++ badCores) (nonCores ++ badNonCores)
+      = cores.map (⟨true, ·⟩) ++ (badCores.map (⟨true, ·⟩) ++ (nonCores.map (⟨false, ·⟩) ++ badNonCores.map (⟨false, ·⟩))) := by
+    simp [inputSegs, List.map_append, List.append_assoc]
+  rw [e1]
+  simp only [List.filter_append]
+  have f1 : (cores.map (⟨true, ·⟩ : Seg → InSeg)).filter (fun s => decide (s ∈ inputSegs cores nonCores))
+      = cores.map (⟨true, ·⟩) := by
+    rw [List.filter_eq_self]; intro a ha; simp [inputSegs]; left; simpa using ha
+  have f2 : (nonCores.map (⟨false, ·⟩ : Seg → InSeg)).filter (fun s => decide (s ∈ inputSegs cores nonCores))
+      = nonCores.map (⟨false, ·⟩) := by
+    rw [List.filter_eq_self]; intro a ha; simp [inputSegs]; right; simpa using ha
+  have f3 : (badCores.map (⟨true, ·⟩ : Seg → InSeg)).filter (fun s => decide (s ∈ inputSegs cores nonCores)) = [] := by
+    rw [List.filter_eq_nil_iff]; intro a ha
+    rcases List.mem_map.mp ha with ⟨b, hb, rfl⟩
+    simpa using hbc b hb
+  have f4 : (badNonCores.map (⟨false, ·⟩ : Seg → InSeg)).filter (fun s => decide (s ∈ inputSegs cores nonCores)) = [] := by
+    rw [List.filter_eq_nil_iff]; intro a ha
+    rcases List.mem_map.mp ha with ⟨b, hb, rfl⟩
+    simpa using hbn b hb
+  rw [f1, f2, f3, f4]
+  simp [inputSegs]
+
+/-- **Garbage independence, all inputs — full clause.**  Add any segments `badCores`, `badNonCores` (not
+already present) to a segment set.  If every complete candidate solution of the enlarged search that
+uses an added segment *contributes no path* — `path()` drops it (does not encode: more than 63 hop
+fields in a segment / 64 in total, or no interface id at all) or its path is removed by the loop filter
+(`Sol.yieldsNothing`) — then the result (paths, their order, their bytes and metadata) is exactly the
+result without the added segments.  The added segments may take part in the search in any way; the
+sort is stable, so dropping their candidates does not reorder the others (`sortSols_filter`). -/
+theorem garbage_independent_strong (src dst : Nat) (cores nonCores badCores badNonCores : List Seg)
+    (hbc : ∀ b ∈ badCores, (⟨true, b⟩ : InSeg) ∉ inputSegs cores nonCores)
+    (hbn : ∀ b ∈ badNonCores, (⟨false, b⟩ : InSeg) ∉ inputSegs cores nonCores)
+    (hnothing : ∀ s ∈ candidates (graphOf (inputSegs (cores ++ badCores) (nonCores ++ badNonCores))) src dst,
+      (∃ e ∈ s.edges, e.seg ∉ inputSegs cores nonCores) → s.yieldsNothing) :
+    combine src dst (cores ++ badCores) (nonCores ++ badNonCores) = combine src dst cores nonCores := by
+  by_cases hne : src = dst
+  · simp [combine, hne]
+  · have h1 := inputSegs_garbage_filter cores nonCores badCores badNonCores hbc hbn
+    let Q : GEdge → Bool := fun e => decide (e.seg ∈ inputSegs cores nonCores)
+    have hcand : (candidates (graphOf (inputSegs (cores ++ badCores) (nonCores ++ badNonCores))) src dst).filter
+        (Sol.allEdges Q) = candidates (graphOf (inputSegs cores nonCores)) src dst := by
+      have hb := bfs_filter (graphOf (inputSegs (cores ++ badCores) (nonCores ++ badNonCores))) Q dst bfsRounds
+        [Sol.new (.as src)]
+      have hnew : [Sol.new (Vertex.as src)].filter (Sol.allEdges Q) = [Sol.new (Vertex.as src)] := by
+        simp [Sol.allEdges, Sol.new]
+      unfold candidates
+      rw [hb, hnew, graphOf_filter, h1]
+    have hsort : (sortedCandidates src dst (inputSegs (cores ++ badCores) (nonCores ++ badNonCores))).filter
+        (Sol.allEdges Q) = sortedCandidates src dst (inputSegs cores nonCores) := by
+      unfold sortedCandidates
+      rw [sortSols_filter, hcand]
+    rcases combine_eq src dst (cores ++ badCores) (nonCores ++ badNonCores) hne with ⟨ps', hps', hc'⟩
+    rcases combine_eq src dst cores nonCores hne with ⟨ps, hps, hc⟩
+    rcases pathsOf_filter (Sol.allEdges Q) _ ps' hps' (by
+      intro s hs hq
+      apply hnothing s (mem_sortedCandidates.mp hs)
+      simp only [Sol.allEdges, List.all_eq_false] at hq
+      rcases hq with ⟨e, he, hqe⟩
+      exact ⟨e, he, by simpa [Q] using hqe⟩) with ⟨ps'', h2, h3⟩
+    rw [hsort, hps] at h2
+    injection h2 with h2
+    rw [hc', hc, ← h3, h2]
+
+/-- non-vacuity of `garbage_independent_strong` with segments that DO form candidates: the all-zero-interface
+segment between the requested ASes (its only candidate has no interface: dropped) -/
+example : ∀ s ∈ candidates (graphOf (inputSegs ([] ++ []) ([upSeg] ++ [{ zeroIfSeg with entries :=
+      [⟨3, 2000, 0, ⟨63, 0, 0, 0⟩, []⟩, ⟨1, 2000, 1280, ⟨63, 0, 0, 0⟩, []⟩] }]))) 1 3,
+    (∃ e ∈ s.edges, e.seg ∉ inputSegs [] [upSeg]) → solPath s = .dropped := by
+  decide +kernel
 
 /-- in particular segments without AS entries are ignored (the documented behaviour of `add_segment`) -/
 theorem empty_segments_ignored (src dst : Nat) (cores nonCores badCores badNonCores : List Seg)
